@@ -134,6 +134,11 @@ func (srv *Server) handleChannel(ctx context.Context, c *ServerChannel) {
 		return
 	}
 
+	if !c.Established() {
+		// The session was failed during the establishment
+		return
+	}
+
 	established := srv.config.Established
 	if established != nil {
 		established(c.sessionID, c)
